@@ -313,10 +313,27 @@ pub fn run(ctx: &Ctx, reg: &Registry) -> i32 {
                                 (o, _) => fail(&mut acc, script.clone(), &t_k, ("fail-fast-is-not-first-report", format!("always-stop run returned {} ; the first report of the keep-going run is r{:?}", o.show(), first), vec![])),
                             }
                             if src == Source::Json {
-                                if let Some(Ok(Ok(p))) = s.run_jsonerror(&case.payload.to_json()) {
+                                let j = case.payload.to_json();
+                                if let Some(Ok(Ok(p))) = s.run_jsonerror(&j) {
                                     fail(&mut acc, script.clone(), &t_k, ("jsonerror-ok-where-recording-run-fails", format!("JsonError run returned Ok({})", p.show()), vec![]));
                                 }
                                 acc.count("jsonerror_runs");
+                                // the built-in always-stop error types return the FIRST report of the keep-going run: their
+                                // message must state the facts of r_0 (same containment oracle as C14; added in round 8)
+                                if let (Some(r0), false) = (tk.reports().next(), is_long) {
+                                    if let Some(Ok(Err(msg))) = s.run_jsonerror(&j) {
+                                        acc.count("builtin_messages_compared_with_first_report");
+                                        if let Some((rule, what)) = crate::c14::check_json(&msg, r0, &case.payload).into_iter().next() {
+                                            fail(&mut acc, script.clone(), &t_k, ("jsonerror-is-not-first-report", format!("{rule}: {what}; message: {msg}"), vec![]));
+                                        }
+                                    }
+                                    if let Some(Ok(Err(msg))) = s.run_qperror(&j) {
+                                        acc.count("builtin_messages_compared_with_first_report");
+                                        if let Some((rule, what)) = crate::c14::check_qp(&msg, r0).into_iter().next() {
+                                            fail(&mut acc, script.clone(), &t_k, ("queryparamerror-is-not-first-report", format!("{rule}: {what}; message: {msg}"), vec![]));
+                                        }
+                                    }
+                                }
                             }
                         }
                     }
